@@ -264,11 +264,52 @@ def part_signing(ctx, wt, m, n, how, thorough):
                 pass
 
 
+def part_many(ctx, n, wt):
+    """many cosigners (two-digit numbers of them): the address of a path is the same before and after reopening the wallet, in every holder's
+    wallet, with sorted keys (the Lean script) and with keys kept in the order supplied"""
+    from bitcoinlib.wallets import Wallet
+    m = 2
+    g = Group(ctx, wt, m, n, 'many%d' % n)
+    script, addr, pos = g.expected(0, 1, 2)
+    for sort_keys in (True, False):
+        seen = {}
+        for holder in (0, n - 1, ctx.rng.randrange(1, n - 1)):
+            g.count += 1
+            name = 'many_%d_%s_%d' % (n, sort_keys, g.count)
+            keys = [g.masters[j] if j == holder else g.pubs[j] for j in range(n)]
+            w = Wallet.create(name, keys=keys, sigs_required=m, witness_type=wt, network='bitcoin', db_uri=g.db, sort_keys=sort_keys)
+            fresh = w.key_for_path([1, 2], cosigner_id=0).address
+            again = Wallet(name, db_uri=g.db).key_for_path([1, 2], cosigner_id=0).address
+            # (a wallet object that creates the key itself after reopening)
+            other = Wallet(name, db_uri=g.db).key_for_path([0, 5], cosigner_id=0).address
+            g.count += 1
+            w2 = Wallet.create(name + 'b', keys=keys, sigs_required=m, witness_type=wt, network='bitcoin', db_uri=g.db, sort_keys=sort_keys)
+            other_fresh = w2.key_for_path([0, 5], cosigner_id=0).address
+            ctx.evals += 3
+            ctx.count('many-cosigners:%d:%s' % (n, 'sorted' if sort_keys else 'given-order'))
+            rep = {'op': 'address-many', 'wt': wt, 'm': m, 'n': n, 'holder': holder, 'sort_keys': sort_keys}
+            if again != fresh or other != other_fresh:
+                ctx.violation('a reopened cosigner wallet derives another address for the same path than before it was closed',
+                              dict(rep, fresh=[fresh, other_fresh], reopened=[again, other]))
+                return
+            if sort_keys and fresh != addr:
+                ctx.violation('a cosigner wallet derives a different address for the same path', dict(rep, observed=fresh, **{'expected (sorted keys, Lean)': addr}))
+                return
+            seen[holder] = fresh
+        if len(set(seen.values())) != 1:
+            ctx.violation('cosigner wallets made from the same keys in the same order derive different addresses', dict(rep, addresses=seen))
+            return
+    ctx.nontrivial.add(hash(('many', wt, n)))
+
+
 def run(ctx):
     install_fake_service()
     T = ctx.thorough
     combos = [(2, 2), (2, 3), (2, 5)] if not T else [(1, 2), (2, 2), (1, 3), (2, 3), (3, 3), (2, 4), (3, 5), (2, 5)]
     rp = getattr(ctx, 'replay_obj', None)
+    if not rp or rp['replay'].get('op') == 'address-many':
+        for n_ in ((11,) if not T else (11, 12, 15)):
+            part_many(ctx, n_, ctx.rng.choice(['legacy', 'p2sh-segwit', 'segwit']) if not rp else rp['replay']['wt'])
     for wt in ('legacy', 'p2sh-segwit', 'segwit'):
         for (m, n) in combos:
             if rp and (rp['replay'].get('wt'), rp['replay'].get('m'), rp['replay'].get('n')) != (wt, m, n):
